@@ -213,7 +213,9 @@ def main(tier):
         res = replay_main(sys.argv[2], make_harness)
         print('REPLAY: %s' % ('differs from the reference / sanitizer report' if (res['x'] or crash_class(res)) else 'case agrees with the reference on the current tree'))
         return 1 if (res['x'] or crash_class(res)) else 0
-    h = make_harness()
+    h, rc_ = harness_or_violation('C14', tier, make_harness)
+    if h is None:
+        return rc_
     ex = Explorer('C14', tier, h, 'e2', 'c14.py')
     ex.deadline = time.time() + (240 if tier == 'quick' else 900)
     ex.mode = 'e1'; run_e1(ex)
